@@ -61,7 +61,7 @@ OfferOf(o) == [scheme |-> o.scheme, realm |-> o.realm, scope |-> ToSet(o.scope)]
 OffersOf(q) == {OfferOf(q[i]) : i \in 1..Len(q)}
 
 IsTokenCred(c) == c.k \in {"bearer", "static"}
-IsSecretCred(c) == c.k \in {"basic", "refresh"}
+IsSecretCred(c) == c.k \notin {"none", "bearer", "static"}   \* passwords, refresh tokens, anything unrecognised
 \* the credential the model says the message carries against the one the harness saw
 CredOK(model, logged, h) ==
   /\ (Check10 /\ (IsTokenCred(model) \/ IsTokenCred(logged))) => model = logged
